@@ -410,12 +410,12 @@ def _decoy_first(world, captured):
 
 
 def _placing_events(events, details, dest):
-    """How many audit events put a file under dest: shutil.copyfile / copy, or a creating / truncating open there
-    (an implementation may copy with its own read/write loop)."""
+    """How many audit events put a file under dest: a copy, a hard link or a rename to a name there, or a creating /
+    truncating open there (an implementation may copy with its own read/write loop, link, or stage and rename)."""
     n = 0
     for (ev, paths), dt in zip(events, details):
-        if ev == "shutil.copyfile" and paths and _under(paths[-1], dest):
-            n += 1
+        if ev in ("shutil.copyfile", "os.link", "os.rename", "shutil.move") and paths and _under(paths[-1], dest):
+            n += 1          # a copy, a hard link or a rename whose NEW name lies under dest
         elif ev == "open-w" and dt.get("flags", 0) & (os.O_CREAT | os.O_TRUNC) and paths and _under(paths[0], dest):
             n += 1
     return n
